@@ -14,11 +14,12 @@ pub struct TimerMonitor {
     pub interval_changes_connected: u64,
     pub closes: u64,
     pub rearm_checks: u64,
+    pub silent_accepts: u64,
 }
 
 impl TimerMonitor {
     pub fn new() -> TimerMonitor {
-        TimerMonitor { armed: BTreeSet::new(), expiries_connected: 0, interval_changes_connected: 0, closes: 0, rearm_checks: 0 }
+        TimerMonitor { armed: BTreeSet::new(), expiries_connected: 0, interval_changes_connected: 0, closes: 0, rearm_checks: 0, silent_accepts: 0 }
     }
 
     /// walk one returned list: cancels only for armed timers; returns the resets seen
@@ -151,11 +152,26 @@ impl Observer for TimerMonitor {
             }
         }
         // ---- server: every accepted inbound packet re-arms the receive timer with 1.5 x keep-alive, never for 0
-        if let Call::Recv { .. } = &st.call {
-            for list in &lists {
-                let accepted: Vec<&AP> = list.iter().filter_map(|e| if let NEvent::Recv(ap) = e { Some(ap) } else { None }).collect();
+        if let Call::Recv { bytes, ap: frame_ap } = &st.call {
+            // a complete frame that is neither delivered nor answered with an error was accepted silently
+            // (a retransmitted QoS 2 PUBLISH whose first copy was delivered): it re-arms the timer too
+            let total: usize = st.calls.iter().map(|(n, _)| *n).sum();
+            let silent_last = match (frame_ap, st.calls.last()) {
+                (Some(ap), Some((_, l))) if total == bytes.len() && !st.calls.is_empty() => {
+                    if !l.iter().any(|e| matches!(e, NEvent::Recv(_) | NEvent::Error(_) | NEvent::Close)) { Some(ap) } else { None }
+                }
+                _ => None,
+            };
+            for (li, list) in lists.iter().enumerate() {
+                let mut accepted: Vec<&AP> = list.iter().filter_map(|e| if let NEvent::Recv(ap) = e { Some(ap) } else { None }).collect();
                 if accepted.is_empty() {
-                    continue;
+                    match silent_last {
+                        Some(ap) if li + 1 == lists.len() && pre.status == St::Connected => {
+                            self.silent_accepts += 1;
+                            accepted.push(ap)
+                        }
+                        _ => continue,
+                    }
                 }
                 let resets: Vec<u64> = list.iter().filter_map(|e| if let NEvent::TimerReset { kind: TK::PingreqRecv, ms } = e { Some(*ms) } else { None }).collect();
                 if !t.as_client && t.status != St::Disconnected {
@@ -236,6 +252,7 @@ pub fn test(h: &History, st: &mut Stats) -> R {
     count_outcome(&out, st);
     r?;
     st.count("rearm_checks", m.rearm_checks);
+    st.count("silently_accepted_frames_checked", m.silent_accepts);
     if (m.expiries_connected + m.interval_changes_connected) > 0 && m.closes > 0 {
         st.nontrivial(&(h.cfg, &h.ops));
         if m.expiries_connected > 0 {
